@@ -8,7 +8,8 @@ META = {
             'oracle = reference line writer applied to the reference tree of C01 (so "same tree as HTML" holds by construction); '
             'C15-b: decorated templates (id/class/attributes/text, multi-line text) with a symbolic indent string and payload.',
     'bounds': {
-        'quick': 'skeletons of <=5 items x haml/pug/slim, repeat counts 1..3; 18 decorated templates x 3 syntaxes, indent = any '
+        'quick': 'skeletons of <=5 items x haml/pug/slim, repeat counts 1..3; chains of 6 elements over every sequence of {>, +, ^, ^^, ^^^} with '
+                 'self-closed leaves; 18 decorated templates x 3 syntaxes, indent = any '
                  'string of 1..2 spaces/tabs, payload 1..2 chars',
         'thorough': 'skeletons of <=6 items; indent 0..3 chars',
     },
@@ -133,6 +134,55 @@ def mk_structure(K, syntax, first):
                             'default indent (tab) and newline' % (syntax, first, K - 1)],
             'functions': ['format.indent_format.element/should_format/push_value', 'format.walk.walk', 'format.haml/pug/slim',
                           'OutputStream.push_newline/push_indent']}
+
+
+def mk_chain(S, syntax, first_op):
+    """S elements joined by S-1 solver-chosen operators from {>, +, ^, ^^, ^^^} (deeper than the K-item skeletons); every second
+    leaf is self-closed so that the level bookkeeping around self-closing lines is exercised below the top level"""
+    from vf.pipe import expand_injected, make_config
+    user = {'syntax': syntax}
+    NOP = 5
+
+    def run(ops, wrong=False):
+        items, parts = [], []
+        for i in range(S):
+            name = 'x%d' % (i + 1)
+            leaf = i == S - 1 or ops[i] != 0
+            close = leaf and i % 2 == 1
+            items.append(('el', name, None, close))
+            parts.append(name + ('/' if close else ''))
+            if i < S - 1:
+                o = ops[i]
+                if o == 0:
+                    items.append('>'); parts.append('>')
+                elif o == 1:
+                    items.append('+'); parts.append('+')
+                else:
+                    items += ['^'] * (o - 1); parts.append('^' * (o - 1))
+        lines = []
+        render_tree(c01.ref_build(items), syntax, 0, lines)
+        expected = '\n'.join(lines) + ('\n' if wrong else '')
+        out = expand_injected(''.join(parts), make_config(user), lambda toks: None)
+        return True if out == expected else 'lines_differ'
+
+    def harness(wrong):
+        def h(o2: int, o3: int, o4: int, o5: int, o6: int):
+            ops = [first_op]
+            rest = [o2, o3, o4, o5, o6]
+            for o in rest[:S - 2]:
+                if not (0 <= o < NOP):
+                    return 'skip'
+                ops.append(o)
+            for o in rest[S - 2:]:
+                if o != 0:
+                    return 'skip'
+            return run(ops, wrong)
+        return h
+    z = dict(o2=0, o3=0, o4=0, o5=0, o6=0)
+    return {'fn': harness(False), 'twin': harness(True), 'witnesses': [z, dict(z, o2=1, o3=2)],
+            'assumptions': ['syntax %s; %d elements joined by operators chosen by the solver from {>, +, ^, ^^, ^^^}, first operator kind %d; '
+                            'every second leaf is written self-closed' % (syntax, S, first_op)],
+            'functions': ['format.indent_format.element (level bookkeeping)', 'abbreviation.parser.statements']}
 
 
 # ------------------------------------------------------------------ decorated templates
@@ -326,6 +376,10 @@ def jobs(tier):
             out.append(Job('C15-a/structure/K=%d,%s,first=%d' % (K, syn, first), 'vf.props.c15:mk_structure',
                            dict(K=K, syntax=syn, first=first), shape='H', bound='<=%d items' % K, budget=900 if q else 3000,
                            weight=300))
+        for fo in range(5):
+            out.append(Job('C15-d/chain/%s/S=%d,op1=%d' % (syn, 6 if q else 7, fo), 'vf.props.c15:mk_chain',
+                           dict(S=6 if q else 7, syntax=syn, first_op=fo), shape='H', bound='%d elements, every operator sequence' % (6 if q else 7),
+                           budget=900 if q else 3000, weight=250))
         for ti in range(len(TEXTY)):
             out.append(Job('C15-c/texty/%s/t%02d' % (syn, ti), 'vf.props.c15:mk_texty', dict(ti=ti, syntax=syn), shape='H',
                            bound='template', budget=600, weight=20))
